@@ -89,6 +89,12 @@ def run(ctx):
     # the 64-bit constant methods, typed by a 64-bit type declared before them (ids: 1 type, 2, 3 constants, 4 type, 5 constant)
     reqs.append("buildrt type_int/64/0 constant_bit64/1/18446744073709551615 spec_constant_bit64/1/4294967296 type_float/64 constant_bit64/4/4607182418800017408")
     reqs.append("buildrt type_int/64/1 spec_constant_bit64/1/9223372036854775808 begin_function/1/-/0/2 begin_block/- ret end_function")
+    # OpSwitch over a computed selector whose type is tracked: 64-bit case literals (two words each) resp. 32-bit ones
+    l64, l32 = g.vix["LiteralBit64"], g.vix["LiteralBit32"]
+    reqs.append(f"buildrt type_int/64/0 begin_function/1/-/0/2 begin_block/- i_add/1/-/7/8 switch/4/9/{l64}:Q5=10,{l64}:Q18446744073709551615=11 end_function")
+    reqs.append(f"buildrt type_int/64/1 begin_function/1/-/0/2 function_parameter/1 begin_block/- switch/3/9/{l64}:Q4294967296=10 end_function")
+    reqs.append(f"buildrt type_int/32/0 begin_function/1/-/0/2 begin_block/- i_add/1/-/7/8 switch/4/9/{l32}:5=10,{l32}:4294967295=11,{l32}:0=12 end_function")
+    reqs.append(f"buildrt type_int/16/0 begin_function/1/-/0/2 begin_block/- undef/1/- switch/4/9/{l32}:65535=10 end_function")
     n_single = len(reqs)
     for _ in range(300 if ctx.tier == "quick" else 5000):
         reqs.append("buildrt " + " ".join(g.history(size=rnd.choice([0.5, 1, 2]), skip=skip)))
